@@ -838,6 +838,13 @@ class Simulation:
             if kwargs.pop('add_noise', True):
                 self.survey.add_noise(**kwargs)
 
+            # Misfit, gradient, residual, and weights belong to the old data.
+            for name in ['_gradient', '_misfit']:
+                setattr(self, name, None)
+            for key in ['residual', 'weights']:
+                if key in self.data.keys():
+                    del self.data[key]
+
         elif source is None and frequency is None:
             self._computed = True
 
